@@ -1,4 +1,4 @@
-CONSTANTS Mode = "grow"  MaxDepth = 2  GrowModes = {"bare", "sib", "dupl", "dupf"}
+CONSTANTS Mode = "grow"  MaxDepth = 2  FlatWidth = 3  LeafMode = "full"  GrowModes = {"bare", "sib", "dupl", "dupf"}
 SPECIFICATION Spec
 INVARIANT DepthOK
 INVARIANT LawsThenEmit
